@@ -52,12 +52,19 @@ def varsOkF : Nat → Text → Bool
 
 def varsOk (t : Text) : Bool := varsOkF (t.length + 1) t
 
+/-- two commas in a row: the lexer ends an unquoted path at the first one (an empty alternative is only
+accepted first or last in its braces: `{,a}`, `{a,}`) -/
+def doubleComma : Text → Bool
+  | ',' :: ',' :: _ => true
+  | _ :: cs => doubleComma cs
+  | [] => false
+
 /-- a path / name token: quoted, or free of blanks (guaranteed by `words`) and not empty -/
 def isPathTok (w : Text) : Bool :=
   match w with
   | '"' :: rest => rest.getLast? == some '"' && rest.length ≥ 2 && varsOk rest
-  | '/' :: _ => !w.contains '"' && varsOk w
-  | '@' :: _ => !w.contains '"' && varsOk w
+  | '/' :: _ => !w.contains '"' && varsOk w && !doubleComma w
+  | '@' :: _ => !w.contains '"' && varsOk w && !doubleComma w
   | _ => false
 
 /-- permission string: letters of `mrwlk` (plus the append `a`), and at most one exec mode -/
